@@ -10,6 +10,9 @@ import LpProofs.C09
 namespace Lp.C08
 open Lp Lp.Interp Lp.C09
 
+-- the square root of `Stationary_Values` is a parameter (class `SqrtFn`): everything below holds for every instance
+variable [SqrtFn]
+
 /-! ### the three places a located abscissa can be -/
 
 theorem strictInc_of_tbl {o : Obj} (t : Tbl o) : Lp.C01.StrictInc o.N o.x :=
@@ -28,22 +31,22 @@ theorem located_cases {o : Obj} (t : Tbl o) {v : Rat} {j : Nat} (h : locateCanon
     unfold locateCanon at h
     rw [locate_out o.N o.x _ v hd] at h
     unfold edgeIdx at h
-    by_cases c1 : rabs (v - o.x 0) < (1 : Rat) / 100 * (o.x 1 - o.x 0)
+    by_cases c1 : rabs (v - o.x 0) ≤ (1 : Rat) / 100 * (o.x 1 - o.x 0)
     · simp only [c1, if_true] at h
       have e : j = 0 := by injection h with h; exact h.symm
       rcases hd with hd | hd
       · exact Or.inl ⟨hd, e⟩
       · exfalso
-        have c1' : rabs (v - o.x 0) < (1 : Rat) / 100 * (o.x 1 - o.x 0) := c1
+        have c1' : rabs (v - o.x 0) ≤ (1 : Rat) / 100 * (o.x 1 - o.x 0) := c1
         unfold rabs at c1'
         split at c1' <;> linarith
     · simp only [c1, if_false] at h
-      by_cases c2 : rabs (v - o.x (o.N - 1)) < (1 : Rat) / 100 * (o.x (o.N - 1) - o.x (o.N - 2))
+      by_cases c2 : rabs (v - o.x (o.N - 1)) ≤ (1 : Rat) / 100 * (o.x (o.N - 1) - o.x (o.N - 2))
       · simp only [c2, if_true] at h
         have e : j = o.N - 2 := by injection h with h; exact h.symm
         rcases hd with hd | hd
         · exfalso
-          have c2' : rabs (v - o.x (o.N - 1)) < (1 : Rat) / 100 * (o.x (o.N - 1) - o.x (o.N - 2)) := c2
+          have c2' : rabs (v - o.x (o.N - 1)) ≤ (1 : Rat) / 100 * (o.x (o.N - 1) - o.x (o.N - 2)) := c2
           unfold rabs at c2'
           split at c2' <;> linarith
         · exact Or.inr (Or.inr ⟨hd, by omega⟩)
@@ -125,56 +128,96 @@ theorem mem_knotValues (o : Obj) (first last : Nat) (v : Rat) (h : v ∈ o.knotV
 def firstK (o : Obj) (v1 v2 : Rat) (i1 : Nat) : Nat := if v1 < o.x 0 ∧ v2 ≥ o.x 0 then i1 else i1 + 1
 def lastK (o : Obj) (v1 v2 : Rat) (i2 : Nat) : Nat := if v2 > o.x (o.N - 1) ∧ v1 ≤ o.x (o.N - 1) then i2 + 1 else i2
 
-/-- `Local_Minimum` is a lower bound of, `Local_Maximum` an upper bound of, every candidate -/
-theorem extVal_candidates (o : Obj) (v1 v2 fl fr : Rat) (i1 i2 : Nat) :
-    extVal o false v1 v2 fl fr i1 i2 ≤ fl ∧ extVal o false v1 v2 fl fr i1 i2 ≤ fr ∧
-    fl ≤ extVal o true v1 v2 fl fr i1 i2 ∧ fr ≤ extVal o true v1 v2 fl fr i1 i2 ∧
-    ∀ k, firstK o v1 v2 i1 ≤ k → k ≤ lastK o v1 v2 i2 →
-      extVal o false v1 v2 fl fr i1 i2 ≤ o.pref * o.y k ∧ o.pref * o.y k ≤ extVal o true v1 v2 fl fr i1 i2 := by
-  unfold extVal firstK lastK
+/-- stationary values of the continued edge cubics that `Local_*` considers (empty unless a limit is extrapolated) -/
+def statL (o : Obj) (v1 v2 : Rat) : List Rat := if v1 < o.x 0 then o.stationaryValues 0 v1 (rmin v2 (o.x 0)) else []
+def statR (o : Obj) (v1 v2 : Rat) : List Rat :=
+  if v2 > o.x (o.N - 1) then o.stationaryValues (o.N - 2) (rmax v1 (o.x (o.N - 1))) v2 else []
+
+/-- the value before the stationary values are folded in: end values and knots -/
+def extKnots (o : Obj) (isMax : Bool) (first last : Nat) (fl fr : Rat) : Rat :=
+  let pick := if isMax then rmax else rmin
+  if first ≤ last then
+    pick (pick (pick fl fr) (o.pref * listMin (o.knotValues first last) 0)) (o.pref * listMax (o.knotValues first last) 0)
+  else pick fl fr
+
+theorem extVal_eq (o : Obj) (isMax : Bool) (v1 v2 fl fr : Rat) (i1 i2 : Nat) :
+    extVal o isMax v1 v2 fl fr i1 i2 =
+      (statR o v1 v2).foldl (if isMax then rmax else rmin)
+        ((statL o v1 v2).foldl (if isMax then rmax else rmin) (extKnots o isMax (firstK o v1 v2 i1) (lastK o v1 v2 i2) fl fr)) := by
+  unfold extVal Obj.extValue statL statR extKnots firstK lastK
   simp only
-  generalize (if v1 < o.x 0 ∧ v2 ≥ o.x 0 then i1 else i1 + 1) = first
-  generalize (if v2 > o.x (o.N - 1) ∧ v1 ≤ o.x (o.N - 1) then i2 + 1 else i2) = last
-  by_cases h : first > last
-  · simp only [h, if_true, Bool.false_eq_true, if_false]
-    exact ⟨rmin_le_left _ _, rmin_le_right _ _, le_rmax_left _ _, le_rmax_right _ _, fun k a b => by omega⟩
-  · simp only [h, if_false, if_true, Bool.false_eq_true]
-    refine ⟨le_trans (rmin_le_left _ _) (le_trans (rmin_le_left _ _) (rmin_le_left _ _)), rmin_le_right _ _,
-      le_trans (le_trans (le_rmax_left _ _) (le_rmax_left _ _)) (le_rmax_left _ _), le_rmax_right _ _, fun k a b => ?_⟩
+  by_cases hl : v1 < o.x 0 <;> by_cases hr : v2 > o.x (o.N - 1) <;> simp only [hl, hr, if_true, if_false, List.foldl_nil]
+
+theorem extKnots_candidates (o : Obj) (first last : Nat) (fl fr : Rat) :
+    extKnots o false first last fl fr ≤ fl ∧ extKnots o false first last fl fr ≤ fr ∧
+    fl ≤ extKnots o true first last fl fr ∧ fr ≤ extKnots o true first last fl fr ∧
+    ∀ k, first ≤ k → k ≤ last →
+      extKnots o false first last fl fr ≤ o.pref * o.y k ∧ o.pref * o.y k ≤ extKnots o true first last fl fr := by
+  unfold extKnots
+  simp only [Bool.false_eq_true, if_false, if_true]
+  by_cases h : first ≤ last
+  · simp only [h, if_true]
+    refine ⟨le_trans (rmin_le_left _ _) (le_trans (rmin_le_left _ _) (rmin_le_left _ _)),
+      le_trans (rmin_le_left _ _) (le_trans (rmin_le_left _ _) (rmin_le_right _ _)),
+      le_trans (le_trans (le_rmax_left _ _) (le_rmax_left _ _)) (le_rmax_left _ _),
+      le_trans (le_trans (le_rmax_right _ _) (le_rmax_left _ _)) (le_rmax_left _ _), fun k a b => ?_⟩
     have hm := knot_mem o first last k a b
     obtain ⟨s1, s2⟩ := scaled_between o.pref _ _ (o.y k) (listMin_le _ 0 _ hm) (le_listMax _ 0 _ hm)
     constructor
     · refine le_trans ?_ s1
       apply le_rmin
-      · exact le_trans (rmin_le_left _ _) (le_trans (rmin_le_left _ _) (rmin_le_right _ _))
       · exact le_trans (rmin_le_left _ _) (rmin_le_right _ _)
+      · exact rmin_le_right _ _
     · refine le_trans s2 ?_
       apply rmax_le
-      · exact le_trans (le_trans (le_rmax_right _ _) (le_rmax_left _ _)) (le_rmax_left _ _)
       · exact le_trans (le_rmax_right _ _) (le_rmax_left _ _)
+      · exact le_rmax_right _ _
+  · simp only [h, if_false]
+    exact ⟨rmin_le_left _ _, rmin_le_right _ _, le_rmax_left _ _, le_rmax_right _ _, fun k a b => absurd (le_trans a b) h⟩
 
-/-- the result is one of the candidates (so it is attained) -/
-theorem extVal_is_candidate (o : Obj) (isMax : Bool) (v1 v2 fl fr : Rat) (i1 i2 : Nat) :
-    extVal o isMax v1 v2 fl fr i1 i2 = fl ∨ extVal o isMax v1 v2 fl fr i1 i2 = fr ∨
-    ∃ k, firstK o v1 v2 i1 ≤ k ∧ k ≤ lastK o v1 v2 i2 ∧ extVal o isMax v1 v2 fl fr i1 i2 = o.pref * o.y k := by
-  unfold extVal firstK lastK
+theorem extVal_le_knots (o : Obj) (v1 v2 fl fr : Rat) (i1 i2 : Nat) :
+    extVal o false v1 v2 fl fr i1 i2 ≤ extKnots o false (firstK o v1 v2 i1) (lastK o v1 v2 i2) fl fr ∧
+    extKnots o true (firstK o v1 v2 i1) (lastK o v1 v2 i2) fl fr ≤ extVal o true v1 v2 fl fr i1 i2 := by
+  rw [extVal_eq, extVal_eq]
+  simp only [Bool.false_eq_true, if_false, if_true]
+  exact ⟨le_trans (foldl_rmin_le _ _).1 (foldl_rmin_le _ _).1, le_trans (le_foldl_rmax _ _).1 (le_foldl_rmax _ _).1⟩
+
+/-- `Local_Minimum` is a lower bound of, `Local_Maximum` an upper bound of, every candidate: end values and knots … -/
+theorem extVal_candidates (o : Obj) (v1 v2 fl fr : Rat) (i1 i2 : Nat) :
+    extVal o false v1 v2 fl fr i1 i2 ≤ fl ∧ extVal o false v1 v2 fl fr i1 i2 ≤ fr ∧
+    fl ≤ extVal o true v1 v2 fl fr i1 i2 ∧ fr ≤ extVal o true v1 v2 fl fr i1 i2 ∧
+    ∀ k, firstK o v1 v2 i1 ≤ k → k ≤ lastK o v1 v2 i2 →
+      extVal o false v1 v2 fl fr i1 i2 ≤ o.pref * o.y k ∧ o.pref * o.y k ≤ extVal o true v1 v2 fl fr i1 i2 := by
+  obtain ⟨a, b⟩ := extVal_le_knots o v1 v2 fl fr i1 i2
+  obtain ⟨c1, c2, c3, c4, c5⟩ := extKnots_candidates o (firstK o v1 v2 i1) (lastK o v1 v2 i2) fl fr
+  exact ⟨le_trans a c1, le_trans a c2, le_trans c3 b, le_trans c4 b,
+    fun k k1 k2 => ⟨le_trans a (c5 k k1 k2).1, le_trans (c5 k k1 k2).2 b⟩⟩
+
+/-- … and the stationary values of the edge cubics inside the extrapolated part of the range (fix 51ca844) -/
+theorem extVal_stationary (o : Obj) (v1 v2 fl fr : Rat) (i1 i2 : Nat) (s : Rat)
+    (hs : s ∈ statL o v1 v2 ∨ s ∈ statR o v1 v2) :
+    extVal o false v1 v2 fl fr i1 i2 ≤ s ∧ s ≤ extVal o true v1 v2 fl fr i1 i2 := by
+  rw [extVal_eq, extVal_eq]
+  simp only [Bool.false_eq_true, if_false, if_true]
+  rcases hs with hs | hs
+  · exact ⟨le_trans (foldl_rmin_le _ _).1 ((foldl_rmin_le _ _).2 s hs), le_trans ((le_foldl_rmax _ _).2 s hs) (le_foldl_rmax _ _).1⟩
+  · exact ⟨(foldl_rmin_le _ _).2 s hs, (le_foldl_rmax _ _).2 s hs⟩
+
+theorem extKnots_is_candidate (o : Obj) (isMax : Bool) (first last : Nat) (fl fr : Rat) :
+    extKnots o isMax first last fl fr = fl ∨ extKnots o isMax first last fl fr = fr ∨
+    ∃ k, first ≤ k ∧ k ≤ last ∧ extKnots o isMax first last fl fr = o.pref * o.y k := by
+  unfold extKnots
   simp only
-  generalize (if v1 < o.x 0 ∧ v2 ≥ o.x 0 then i1 else i1 + 1) = first
-  generalize (if v2 > o.x (o.N - 1) ∧ v1 ≤ o.x (o.N - 1) then i2 + 1 else i2) = last
   have pick_mem : ∀ a b : Rat, (if isMax = true then rmax else rmin) a b = a ∨ (if isMax = true then rmax else rmin) a b = b := by
     intro a b
     cases isMax
     · simpa using rmin_mem a b
     · simpa using rmax_mem a b
-  by_cases h : first > last
+  by_cases h : first ≤ last
   · simp only [h, if_true]
-    rcases pick_mem fl fr with e | e
-    · exact Or.inl e
-    · exact Or.inr (Or.inl e)
-  · simp only [h, if_false]
     have hne : o.knotValues first last ≠ [] := by
       intro e
-      have := knot_mem o first last first (le_refl _) (by omega)
+      have := knot_mem o first last first (le_refl _) h
       rw [e] at this; cases this
     obtain ⟨a, tl, eks⟩ := List.exists_cons_of_ne_nil hne
     have hmn : ∃ k, first ≤ k ∧ k ≤ last ∧ listMin (o.knotValues first last) 0 = o.y k := by
@@ -187,15 +230,43 @@ theorem extVal_is_candidate (o : Obj) (isMax : Bool) (v1 v2 fl fr : Rat) (i1 i2 
     generalize listMax (o.knotValues first last) 0 = mx at hmx
     obtain ⟨kn, n1, n2, en⟩ := hmn
     obtain ⟨kx, x1, x2, ex⟩ := hmx
-    rcases pick_mem ((if isMax = true then rmax else rmin) ((if isMax = true then rmax else rmin) fl (o.pref * mn)) (o.pref * mx)) fr with e | e
+    rcases pick_mem ((if isMax = true then rmax else rmin) ((if isMax = true then rmax else rmin) fl fr) (o.pref * mn)) (o.pref * mx) with e | e
     · rw [e]
-      rcases pick_mem ((if isMax = true then rmax else rmin) fl (o.pref * mn)) (o.pref * mx) with e | e
+      rcases pick_mem ((if isMax = true then rmax else rmin) fl fr) (o.pref * mn) with e | e
       · rw [e]
-        rcases pick_mem fl (o.pref * mn) with e | e
+        rcases pick_mem fl fr with e | e
         · exact Or.inl e
-        · exact Or.inr (Or.inr ⟨kn, n1, n2, by rw [e, en]⟩)
-      · exact Or.inr (Or.inr ⟨kx, x1, x2, by rw [e, ex]⟩)
+        · exact Or.inr (Or.inl e)
+      · exact Or.inr (Or.inr ⟨kn, n1, n2, by rw [e, en]⟩)
+    · exact Or.inr (Or.inr ⟨kx, x1, x2, by rw [e, ex]⟩)
+  · simp only [h, if_false]
+    rcases pick_mem fl fr with e | e
+    · exact Or.inl e
     · exact Or.inr (Or.inl e)
+
+theorem foldl_pick_mem (isMax : Bool) (l : List Rat) (a : Rat) :
+    l.foldl (if isMax then rmax else rmin) a = a ∨ l.foldl (if isMax then rmax else rmin) a ∈ l := by
+  cases isMax
+  · simpa using foldl_rmin_mem l a
+  · simpa using foldl_rmax_mem l a
+
+/-- the result is one of the candidates (so it is attained): an end value, a knot, or a stationary value -/
+theorem extVal_is_candidate (o : Obj) (isMax : Bool) (v1 v2 fl fr : Rat) (i1 i2 : Nat) :
+    extVal o isMax v1 v2 fl fr i1 i2 = fl ∨ extVal o isMax v1 v2 fl fr i1 i2 = fr ∨
+    (∃ k, firstK o v1 v2 i1 ≤ k ∧ k ≤ lastK o v1 v2 i2 ∧ extVal o isMax v1 v2 fl fr i1 i2 = o.pref * o.y k) ∨
+    extVal o isMax v1 v2 fl fr i1 i2 ∈ statL o v1 v2 ∨ extVal o isMax v1 v2 fl fr i1 i2 ∈ statR o v1 v2 := by
+  rw [extVal_eq]
+  rcases foldl_pick_mem isMax (statR o v1 v2) ((statL o v1 v2).foldl (if isMax then rmax else rmin)
+    (extKnots o isMax (firstK o v1 v2 i1) (lastK o v1 v2 i2) fl fr)) with e | e
+  · rw [e]
+    rcases foldl_pick_mem isMax (statL o v1 v2) (extKnots o isMax (firstK o v1 v2 i1) (lastK o v1 v2 i2) fl fr) with e | e
+    · rw [e]
+      rcases extKnots_is_candidate o isMax (firstK o v1 v2 i1) (lastK o v1 v2 i2) fl fr with c | c | c
+      · exact Or.inl c
+      · exact Or.inr (Or.inl c)
+      · exact Or.inr (Or.inr (Or.inl c))
+    · exact Or.inr (Or.inr (Or.inr (Or.inl e)))
+  · exact Or.inr (Or.inr (Or.inr (Or.inr e)))
 
 /-! ### monotone pieces -/
 
@@ -252,14 +323,260 @@ theorem bd_between {o : Obj} {v1 v2 : Rat} {i1 i2 : Nat} {a b c : Rat} (ha : Bd 
     (h : rmin a b ≤ c ∧ c ≤ rmax a b) : Bd o v1 v2 i1 i2 c :=
   ⟨le_trans (le_rmin ha.1 hb.1) h.1, le_trans h.2 (rmax_le ha.2 hb.2)⟩
 
+/-! ### the continued edge cubic is monotone between consecutive candidates (fix 51ca844)
+
+    `Stationary_Values` finds the roots of the derivative `A τ² + B τ + C` of the edge piece with the
+    stable quadratic formula.  What is needed of the square root — only at the discriminant actually
+    passed to it — is `SqrtOkAt`.  Then the derivative does not change sign on any interval that
+    contains none of the computed roots in its interior, so the piece is monotone between
+    consecutive candidates and takes its extreme values at candidates. -/
+
+/-- the square root is correct at the discriminant of `A τ² + B τ + C` — asked only when it is called (`A ≠ 0`, `disc ≥ 0`) -/
+def SqrtOkAt (A B C : Rat) : Prop :=
+  A ≠ 0 → 0 ≤ B * B - 4 * A * C →
+    0 ≤ SqrtFn.sq (B * B - 4 * A * C) ∧ SqrtFn.sq (B * B - 4 * A * C) * SqrtFn.sq (B * B - 4 * A * C) = B * B - 4 * A * C
+
+/-- … for the derivative of piece `j` -/
+def SqrtOk (o : Obj) (j : Nat) : Prop :=
+  SqrtOkAt (3 * coefA o.N o.x o.y j) (2 * coefB o.N o.x o.y j) (coefC o.N o.x o.y j)
+
+/-- `f` does not change sign on `[u,v]` -/
+def SignOn (f : Rat → Rat) (u v : Rat) : Prop :=
+  (∀ t, u ≤ t → t ≤ v → 0 ≤ f t) ∨ (∀ t, u ≤ t → t ≤ v → f t ≤ 0)
+
+omit [SqrtFn] in
+theorem signOn_const (c u v : Rat) : SignOn (fun _ => c) u v := by
+  rcases le_total 0 c with h | h
+  · exact Or.inl fun _ _ _ => h
+  · exact Or.inr fun _ _ _ => h
+
+omit [SqrtFn] in
+theorem signOn_linear (r u v : Rat) (h : r ≤ u ∨ v ≤ r) : SignOn (fun t => t - r) u v := by
+  rcases h with h | h
+  · exact Or.inl fun t a _ => by linarith
+  · exact Or.inr fun t _ b => by linarith
+
+omit [SqrtFn] in
+theorem signOn_mul {f g : Rat → Rat} {u v : Rat} (hf : SignOn f u v) (hg : SignOn g u v) :
+    SignOn (fun t => f t * g t) u v := by
+  rcases hf with hf | hf <;> rcases hg with hg | hg
+  · exact Or.inl fun t a b => mul_nonneg (hf t a b) (hg t a b)
+  · exact Or.inr fun t a b => mul_nonpos_iff.mpr (Or.inl ⟨hf t a b, hg t a b⟩)
+  · exact Or.inr fun t a b => mul_nonpos_iff.mpr (Or.inr ⟨hf t a b, hg t a b⟩)
+  · exact Or.inl fun t a b => mul_nonneg_iff.mpr (Or.inr ⟨hf t a b, hg t a b⟩)
+
+omit [SqrtFn] in
+theorem signOn_congr {f g : Rat → Rat} {u v : Rat} (h : ∀ t, f t = g t) (hg : SignOn g u v) : SignOn f u v := by
+  rcases hg with hg | hg
+  · exact Or.inl fun t a b => by rw [h t]; exact hg t a b
+  · exact Or.inr fun t a b => by rw [h t]; exact hg t a b
+
+omit [SqrtFn] in
+/-- with `q = −(B + σ s)/2`, `σ = ±1`, `s² = B² − 4AC`: `q` solves `z² + B z + A C = 0`, so `q/A` and `C/q` are the two roots -/
+theorem quad_factor (A B C s σ q t : Rat) (hA : A ≠ 0) (hσ : σ * σ = 1) (hs : s * s = B * B - 4 * A * C)
+    (hqd : q = -(1 / 2 : Rat) * (B + σ * s)) (hq : q ≠ 0) :
+    A * t ^ 2 + B * t + C = A * ((t - q / A) * (t - C / q)) := by
+  have hqq : q * q + B * q + A * C = 0 := by
+    rw [hqd]
+    linear_combination (s * s / 4) * hσ + (1 / 4 : Rat) * hs
+  have hB : B = -(q + A * C / q) := by
+    field_simp
+    linear_combination hqq
+  rw [hB]
+  field_simp
+  ring
+
+/-- the derivative `A τ² + B τ + C` keeps its sign on `[u,v]` when none of the roots `Stationary_Values` computes lies strictly inside -/
+theorem quad_signOn (A B C : Rat) (hs : SqrtOkAt A B C) (u v : Rat)
+    (hno : ∀ r ∈ statRoots A B C, r ≤ u ∨ v ≤ r) : SignOn (fun t => A * t ^ 2 + B * t + C) u v := by
+  unfold statRoots at hno
+  by_cases hA : A = 0
+  · simp only [hA, if_true] at hno
+    by_cases hB : B = 0
+    · exact signOn_congr (g := fun _ => C) (fun t => by rw [hA, hB]; ring) (signOn_const C u v)
+    · simp only [hB, ne_eq, not_false_eq_true, if_true] at hno
+      have hr := hno (-C / B) (List.mem_singleton.mpr rfl)
+      refine signOn_congr (g := fun t => B * (t - -C / B)) (fun t => ?_) (signOn_mul (signOn_const B u v) (signOn_linear _ u v hr))
+      rw [hA]; field_simp; ring
+  · simp only [hA, if_false] at hno
+    by_cases hd : B * B - 4 * A * C ≥ 0
+    · simp only [hd, if_true] at hno
+      obtain ⟨s0, ss⟩ := hs hA hd
+      generalize SqrtFn.sq (B * B - 4 * A * C) = s at hno s0 ss
+      have hσ : (if B ≥ 0 then (1 : Rat) else -1) * (if B ≥ 0 then (1 : Rat) else -1) = 1 := by
+        split <;> norm_num
+      generalize hσd : (if B ≥ 0 then (1 : Rat) else -1) = σ at hno hσ
+      by_cases hq : -(1 / 2 : Rat) * (B + σ * s) = 0
+      · -- q = 0: B = 0 and s = 0, the derivative is A τ²
+        have hB0 : B = 0 ∧ s = 0 := by
+          by_cases hB : B ≥ 0
+          · rw [if_pos hB] at hσd; subst hσd
+            constructor <;> nlinarith
+          · rw [if_neg hB] at hσd; subst hσd
+            exfalso; have : B < 0 := lt_of_not_ge hB; nlinarith
+        obtain ⟨eB, es⟩ := hB0
+        have hC : C = 0 := by
+          have : A * C = 0 := by rw [eB, es] at ss; linarith
+          rcases mul_eq_zero.mp this with h | h
+          · exact absurd h hA
+          · exact h
+        refine signOn_congr (g := fun t => A * (t * t)) (fun t => by rw [eB, hC]; ring) ?_
+        rcases le_total 0 A with h | h
+        · exact Or.inl fun t _ _ => mul_nonneg h (mul_self_nonneg t)
+        · exact Or.inr fun t _ _ => mul_nonpos_iff.mpr (Or.inr ⟨h, mul_self_nonneg t⟩)
+      · simp only [hq, ne_eq, not_false_eq_true, if_true] at hno
+        have r1 := hno (-(1 / 2 : Rat) * (B + σ * s) / A) (List.mem_cons_self)
+        have r2 := hno (C / (-(1 / 2 : Rat) * (B + σ * s))) (List.mem_cons_of_mem _ (List.mem_singleton.mpr rfl))
+        refine signOn_congr (fun t => quad_factor A B C s σ _ t hA hσ ss rfl hq) ?_
+        exact signOn_mul (signOn_const A u v) (signOn_mul (signOn_linear _ u v r1) (signOn_linear _ u v r2))
+    · -- negative discriminant: the sign of A everywhere
+      have hd' : B * B - 4 * A * C < 0 := lt_of_not_ge hd
+      rcases lt_or_gt_of_ne hA with h | h
+      · refine Or.inr fun t _ _ => ?_
+        nlinarith [mul_self_nonneg (2 * A * t + B)]
+      · refine Or.inl fun t _ _ => ?_
+        nlinarith [mul_self_nonneg (2 * A * t + B)]
+
+omit [SqrtFn] in
+/-- a derivative that keeps its sign makes the piece monotone (Simpson's rule is exact for the quadratic derivative) -/
+theorem monoOn_of_sign (o : Obj) (j : Nat) (a b : Rat)
+    (h : (∀ u, a ≤ u → u ≤ b → 0 ≤ Lp.C01.cubicD1 o.N o.x o.y j u) ∨ (∀ u, a ≤ u → u ≤ b → Lp.C01.cubicD1 o.N o.x o.y j u ≤ 0)) :
+    MonoOn o j a b := by
+  have key : ∀ u w : Rat, Lp.C01.cubic o.N o.x o.y j w - Lp.C01.cubic o.N o.x o.y j u =
+      (w - u) * (Lp.C01.cubicD1 o.N o.x o.y j u + 4 * Lp.C01.cubicD1 o.N o.x o.y j ((u + w) / 2)
+        + Lp.C01.cubicD1 o.N o.x o.y j w) / 6 := by
+    intro u w
+    unfold Lp.C01.cubic Lp.C01.cubicD1
+    rw [Lp.C01.seg_diff, show (u + w) / 2 - o.x j = (u - o.x j + (w - o.x j)) / 2 by ring]
+    ring
+  rcases h with h | h
+  · refine Or.inl fun u w h0 h1 h2 => ?_
+    have d1 := h u h0 (le_trans h1 h2)
+    have d2 := h ((u + w) / 2) (by linarith) (by linarith)
+    have d3 := h w (le_trans h0 h1) h2
+    have := key u w
+    have := mul_nonneg (sub_nonneg.mpr h1) (by linarith : 0 ≤ Lp.C01.cubicD1 o.N o.x o.y j u
+      + 4 * Lp.C01.cubicD1 o.N o.x o.y j ((u + w) / 2) + Lp.C01.cubicD1 o.N o.x o.y j w)
+    linarith
+  · refine Or.inr fun u w h0 h1 h2 => ?_
+    have d1 := h u h0 (le_trans h1 h2)
+    have d2 := h ((u + w) / 2) (by linarith) (by linarith)
+    have d3 := h w (le_trans h0 h1) h2
+    have := key u w
+    have := mul_nonneg (sub_nonneg.mpr h1) (by linarith : 0 ≤ -(Lp.C01.cubicD1 o.N o.x o.y j u
+      + 4 * Lp.C01.cubicD1 o.N o.x o.y j ((u + w) / 2) + Lp.C01.cubicD1 o.N o.x o.y j w))
+    linarith
+
+/-- piece `j` is monotone on `[u,v]` when no stationary abscissa that `Stationary_Values` computes lies strictly inside -/
+theorem monoOn_between_roots (o : Obj) (j : Nat) (hs : SqrtOk o j) (u v : Rat)
+    (hno : ∀ r ∈ statRoots (3 * coefA o.N o.x o.y j) (2 * coefB o.N o.x o.y j) (coefC o.N o.x o.y j),
+      o.x j + r ≤ u ∨ v ≤ o.x j + r) : MonoOn o j u v := by
+  have hq := quad_signOn _ _ _ hs (u - o.x j) (v - o.x j) (fun r hr => by
+    rcases hno r hr with h | h
+    · left; linarith
+    · right; linarith)
+  have e : ∀ w, Lp.C01.cubicD1 o.N o.x o.y j w =
+      3 * coefA o.N o.x o.y j * (w - o.x j) ^ 2 + 2 * coefB o.N o.x o.y j * (w - o.x j) + coefC o.N o.x o.y j := by
+    intro w; unfold Lp.C01.cubicD1 segD1; ring
+  apply monoOn_of_sign
+  rcases hq with hq | hq
+  · exact Or.inl fun w a b => by rw [e]; exact hq (w - o.x j) (by linarith) (by linarith)
+  · exact Or.inr fun w a b => by rw [e]; exact hq (w - o.x j) (by linarith) (by linarith)
+
+omit [SqrtFn] in
+theorem exists_nearest_below (l : List Rat) (L w : Rat) (hL : L ≤ w) :
+    ∃ u, (u = L ∨ u ∈ l) ∧ L ≤ u ∧ u ≤ w ∧ ∀ p ∈ l, p ≤ w → p ≤ u := by
+  induction l with
+  | nil => exact ⟨L, Or.inl rfl, le_refl _, hL, fun p hp => by cases hp⟩
+  | cons a l ih =>
+    obtain ⟨u, hu, h0, h1, h2⟩ := ih
+    by_cases ha : a ≤ w ∧ u ≤ a
+    · refine ⟨a, Or.inr List.mem_cons_self, le_trans h0 ha.2, ha.1, fun p hp hpw => ?_⟩
+      rcases List.mem_cons.mp hp with e | e
+      · rw [e]
+      · exact le_trans (h2 p e hpw) ha.2
+    · refine ⟨u, ?_, h0, h1, fun p hp hpw => ?_⟩
+      · rcases hu with e | e
+        · exact Or.inl e
+        · exact Or.inr (List.mem_cons_of_mem _ e)
+      · rcases List.mem_cons.mp hp with e | e
+        · rw [e] at hpw ⊢
+          by_contra hc
+          exact ha ⟨hpw, le_of_lt (lt_of_not_ge hc)⟩
+        · exact h2 p e hpw
+
+omit [SqrtFn] in
+theorem exists_nearest_above (l : List Rat) (R w : Rat) (hR : w ≤ R) :
+    ∃ v, (v = R ∨ v ∈ l) ∧ v ≤ R ∧ w ≤ v ∧ ∀ p ∈ l, w ≤ p → v ≤ p := by
+  induction l with
+  | nil => exact ⟨R, Or.inl rfl, le_refl _, hR, fun p hp => by cases hp⟩
+  | cons a l ih =>
+    obtain ⟨v, hv, h0, h1, h2⟩ := ih
+    by_cases ha : w ≤ a ∧ a ≤ v
+    · refine ⟨a, Or.inr List.mem_cons_self, le_trans ha.2 h0, ha.1, fun p hp hpw => ?_⟩
+      rcases List.mem_cons.mp hp with e | e
+      · rw [e]
+      · exact le_trans ha.2 (h2 p e hpw)
+    · refine ⟨v, ?_, h0, h1, fun p hp hpw => ?_⟩
+      · rcases hv with e | e
+        · exact Or.inl e
+        · exact Or.inr (List.mem_cons_of_mem _ e)
+      · rcases List.mem_cons.mp hp with e | e
+        · rw [e] at hpw ⊢
+          by_contra hc
+          exact ha ⟨hpw, le_of_lt (lt_of_not_ge hc)⟩
+        · exact h2 p e hpw
+
+/-- **the payoff of fix 51ca844**: on a window `[L,R]` of piece `j` the curve lies between the candidates — the two
+    ends and the stationary values `Stationary_Values(j, L, R)` — with no monotonicity hypothesis -/
+theorem bd_window {o : Obj} {v1 v2 : Rat} {i1 i2 : Nat} (j : Nat) (hs : SqrtOk o j) (L R : Rat)
+    (bL : Bd o v1 v2 i1 i2 (o.cubicAt j L)) (bR : Bd o v1 v2 i1 i2 (o.cubicAt j R))
+    (bS : ∀ s ∈ o.stationaryValues j L R, Bd o v1 v2 i1 i2 s)
+    {w : Rat} (h1 : L ≤ w) (h2 : w ≤ R) : Bd o v1 v2 i1 i2 (o.cubicAt j w) := by
+  let roots := statRoots (3 * coefA o.N o.x o.y j) (2 * coefB o.N o.x o.y j) (coefC o.N o.x o.y j)
+  let pts := (roots.filter (fun t => decide (o.x j + t > L ∧ o.x j + t < R))).map (fun t => o.x j + t)
+  have bP : ∀ p ∈ pts, Bd o v1 v2 i1 i2 (o.cubicAt j p) := by
+    intro p hp
+    obtain ⟨t, ht, e⟩ := List.mem_map.mp hp
+    apply bS
+    unfold Obj.stationaryValues
+    refine List.mem_map.mpr ⟨t, ht, ?_⟩
+    rw [← e]
+    unfold Obj.cubicAt
+    rw [show o.x j + t - o.x j = t by ring]
+  have memP : ∀ r ∈ roots, L < o.x j + r → o.x j + r < R → o.x j + r ∈ pts := by
+    intro r hr a b
+    exact List.mem_map.mpr ⟨r, List.mem_filter.mpr ⟨hr, by simp only [decide_eq_true_eq]; exact ⟨a, b⟩⟩, rfl⟩
+  obtain ⟨u, hu, u0, u1, u2⟩ := exists_nearest_below pts L w h1
+  obtain ⟨v, hv, v0, v1', v2'⟩ := exists_nearest_above pts R w h2
+  have hm : MonoOn o j u v := by
+    apply monoOn_between_roots o j hs u v
+    intro r hr
+    by_contra hc
+    have c1 : u < o.x j + r := lt_of_not_ge (fun h => hc (Or.inl h))
+    have c2 : o.x j + r < v := lt_of_not_ge (fun h => hc (Or.inr h))
+    have hmem := memP r hr (lt_of_le_of_lt u0 c1) (lt_of_lt_of_le c2 v0)
+    rcases le_total (o.x j + r) w with hw | hw
+    · have := u2 _ hmem hw; linarith
+    · have := v2' _ hmem hw; linarith
+  have bu : Bd o v1 v2 i1 i2 (o.cubicAt j u) := by
+    rcases hu with e | e
+    · rw [e]; exact bL
+    · exact bP u e
+  have bv : Bd o v1 v2 i1 i2 (o.cubicAt j v) := by
+    rcases hv with e | e
+    · rw [e]; exact bR
+    · exact bP v e
+  exact bd_between bu bv (between_of_monoOn hm (le_refl _) u1 v1' (le_refl _))
+
 /-- the hypotheses shared by the statements below: limits located, ordered, and — only where a limit
-    lies in the 1 % extrapolation zone — the edge cubic monotone between that limit and the end knot -/
+    lies in the 1 % extrapolation zone — the square root correct at the discriminant of that edge piece -/
 structure Lims (o : Obj) (v1 v2 : Rat) (i1 i2 : Nat) : Prop where
   le : v1 ≤ v2
   l1 : locateCanon o.N o.x v1 = .ok i1
   l2 : locateCanon o.N o.x v2 = .ok i2
-  monoL : v1 < o.x 0 → MonoOn o 0 v1 (o.x 0)
-  monoR : o.x (o.N - 1) < v2 → MonoOn o (o.N - 2) (o.x (o.N - 1)) v2
+  sqL : v1 < o.x 0 → SqrtOk o 0
+  sqR : o.x (o.N - 1) < v2 → SqrtOk o (o.N - 2)
 
 /-- `w` in the domain, `j` its canonical bracket -/
 theorem bd_canon {o : Obj} (t : Tbl o) {v1 v2 : Rat} {i1 i2 : Nat} (L : Lims o v1 v2 i1 i2)
@@ -358,10 +675,16 @@ theorem bd_onIdx {o : Obj} (t : Tbl o) {v1 v2 : Rat} {i1 i2 : Nat} (L : Lims o v
           have : o.x (i2 + 1) ≤ o.x (o.N - 1) := t.mono.le (by have := c.1; omega) (by omega)
           linarith [c.2.2.1]
         · omega
-      have hm := L.monoR a2
-      rw [← e2] at hm
+      have hs := L.sqR a2
+      rw [← e2] at hs
       have hR : Bd o v1 v2 i1 i2 (o.cubicAt j v2) := by rw [← ei2]; exact bd_fr o v1 v2 i1 i2
-      have hLft : ∃ P, o.x (o.N - 1) ≤ P ∧ P ≤ w ∧ Bd o v1 v2 i1 i2 (o.cubicAt j P) := by
+      have bS : ∀ s ∈ o.stationaryValues j (rmax v1 (o.x (o.N - 1))) v2, Bd o v1 v2 i1 i2 s := by
+        intro s hs'
+        refine extVal_stationary o v1 v2 _ _ i1 i2 s (Or.inr ?_)
+        unfold statR
+        rw [if_pos a2, ← e2]; exact hs'
+      have hP : o.x (o.N - 1) ≤ rmax v1 (o.x (o.N - 1)) ∧ rmax v1 (o.x (o.N - 1)) ≤ w ∧
+          Bd o v1 v2 i1 i2 (o.cubicAt j (rmax v1 (o.x (o.N - 1)))) := by
         by_cases a1 : o.x (o.N - 1) < v1
         · have ei1 : i1 = j := by
             have := located_mono t L.l1 L.l2 L.le
@@ -373,10 +696,18 @@ theorem bd_onIdx {o : Obj} (t : Tbl o) {v1 v2 : Rat} {i1 i2 : Nat} (L : Lims o v
               have : o.x (i1 + 1) ≤ o.x (o.N - 1) := t.mono.le (by have := c.1; omega) (by omega)
               linarith [c.2.2.1]
             · omega
-          refine ⟨v1, le_of_lt a1, h1, ?_⟩
+          have er : rmax v1 (o.x (o.N - 1)) = v1 := by unfold rmax; rw [if_neg (not_lt.mpr (le_of_lt a1))]
+          rw [er]
+          refine ⟨le_of_lt a1, h1, ?_⟩
           rw [← ei1]; exact bd_fl o v1 v2 i1 i2
         · have a1' : v1 ≤ o.x (o.N - 1) := le_of_not_gt a1
-          refine ⟨o.x (o.N - 1), le_refl _, le_of_lt hhi', ?_⟩
+          have er : rmax v1 (o.x (o.N - 1)) = o.x (o.N - 1) := by
+            unfold rmax
+            split
+            · rfl
+            · linarith
+          rw [er]
+          refine ⟨le_refl _, le_of_lt hhi', ?_⟩
           rw [← e1, cubicAt_right t bj]
           have bi1 := located_bound t L.l1
           refine bd_knot o v1 v2 i1 i2 (j + 1) ?_ ?_
@@ -384,8 +715,7 @@ theorem bd_onIdx {o : Obj} (t : Tbl o) {v1 v2 : Rat} {i1 i2 : Nat} (L : Lims o v
             omega
           · have : lastK o v1 v2 i2 = i2 + 1 := by unfold lastK; rw [if_pos ⟨a2, a1'⟩]
             omega
-      obtain ⟨P, p1, p2, bP⟩ := hLft
-      exact bd_between bP hR (between_of_monoOn hm p1 p2 h2 (le_refl _))
+      exact bd_window j hs _ v2 hP.2.2 hR bS hP.2.1 h2
   · -- below the domain
     have hlo' : w < o.x j := lt_of_not_ge hlo
     have ej : j = 0 := by rcases lo with h | h; exact h; exact absurd h hlo
@@ -400,11 +730,16 @@ theorem bd_onIdx {o : Obj} (t : Tbl o) {v1 v2 : Rat} {i1 i2 : Nat} (L : Lims o v
       · exfalso
         have : o.x 0 ≤ o.x (o.N - 1) := t.mono.le (Nat.zero_le _) (by omega)
         linarith
-    have hm := L.monoL a1
+    have hs := L.sqL a1
     have hLf : Bd o v1 v2 i1 i2 (o.cubicAt 0 v1) := by
       have := bd_fl o v1 v2 i1 i2
       rwa [ei1] at this ⊢
-    have hRgt : ∃ P, w ≤ P ∧ P ≤ o.x 0 ∧ Bd o v1 v2 i1 i2 (o.cubicAt 0 P) := by
+    have bS : ∀ s ∈ o.stationaryValues 0 v1 (rmin v2 (o.x 0)), Bd o v1 v2 i1 i2 s := by
+      intro s hs'
+      refine extVal_stationary o v1 v2 _ _ i1 i2 s (Or.inl ?_)
+      unfold statL
+      rw [if_pos a1]; exact hs'
+    have hP : w ≤ rmin v2 (o.x 0) ∧ Bd o v1 v2 i1 i2 (o.cubicAt 0 (rmin v2 (o.x 0))) := by
       by_cases a2 : v2 < o.x 0
       · have ei2 : i2 = 0 := by
           rcases located_cases t L.l2 with ⟨_, e⟩ | c | ⟨b, _⟩
@@ -415,17 +750,24 @@ theorem bd_onIdx {o : Obj} (t : Tbl o) {v1 v2 : Rat} {i1 i2 : Nat} (L : Lims o v
           · exfalso
             have : o.x 0 ≤ o.x (o.N - 1) := t.mono.le (Nat.zero_le _) (by omega)
             linarith
-        refine ⟨v2, h2, le_of_lt a2, ?_⟩
+        have er : rmin v2 (o.x 0) = v2 := by unfold rmin; rw [if_neg (not_lt.mpr (le_of_lt a2))]
+        rw [er]
+        refine ⟨h2, ?_⟩
         have := bd_fr o v1 v2 i1 i2
         rwa [ei2] at this ⊢
       · have a2' : o.x 0 ≤ v2 := le_of_not_gt a2
-        refine ⟨o.x 0, le_of_lt hlo', le_refl _, ?_⟩
+        have er : rmin v2 (o.x 0) = o.x 0 := by
+          unfold rmin
+          split
+          · rfl
+          · linarith
+        rw [er]
+        refine ⟨le_of_lt hlo', ?_⟩
         rw [cubicAt_left]
         refine bd_knot o v1 v2 i1 i2 0 ?_ (Nat.zero_le _)
         have : firstK o v1 v2 i1 = i1 := by unfold firstK; rw [if_pos ⟨a1, a2'⟩]
         omega
-    obtain ⟨P, p1, p2, bP⟩ := hRgt
-    exact bd_between hLf bP (between_of_monoOn hm (le_refl _) h1 p1 p2)
+    exact bd_window 0 hs v1 _ hLf hP.2 bS h1 hP.1
 
 /-! ### the integral over `[a,b]` lies between `m·(b−a)` and `M·(b−a)` -/
 
@@ -617,5 +959,71 @@ theorem lin_mono (j : Nat) (hj : j + 1 < 3) (a b : Rat) : MonoOn lin j a b :=
   Or.inl fun u w _ h _ => by
     show Lp.C01.cubic lin.N lin.x lin.y j u ≤ Lp.C01.cubic lin.N lin.x lin.y j w
     rw [lin_cubic j hj, lin_cubic j hj]; linarith
+
+/-! ### abscissae between an extrapolated limit and the end knot are located on the edge piece -/
+
+theorem zone_left_located {o : Obj} (t : Tbl o) {v w : Rat} {j : Nat} (h : locateCanon o.N o.x v = .ok j)
+    (hv : v < o.x 0) (h1 : v ≤ w) (h2 : w < o.x 0) : locateCanon o.N o.x w = .ok 0 := by
+  have hN := t.hN
+  have h0l : o.x 0 ≤ o.x (o.N - 2) := t.mono.le (by omega) (by omega)
+  have hl : o.x (o.N - 2) < o.x (o.N - 1) := t.mono _ _ (by omega) (by omega)
+  have h1l : o.x 1 ≤ o.x (o.N - 1) := t.mono.le (by omega) (by omega)
+  have h01 : o.x 0 < o.x 1 := t.mono 0 1 (by omega) (by omega)
+  have c1 : rabs (v - o.x 0) ≤ (1 : Rat) / 100 * (o.x 1 - o.x 0) := by
+    by_contra c1
+    unfold locateCanon at h
+    rw [locate_out o.N o.x _ v (Or.inl hv)] at h
+    unfold edgeIdx at h
+    simp only [c1, if_false] at h
+    by_cases c2 : rabs (v - o.x (o.N - 1)) ≤ (1 : Rat) / 100 * (o.x (o.N - 1) - o.x (o.N - 2))
+    · have c2' := c2
+      unfold rabs at c2'
+      split at c2' <;> linarith
+    · simp only [c2, if_false] at h
+      cases h
+  have c1w : rabs (w - o.x 0) ≤ (1 : Rat) / 100 * (o.x 1 - o.x 0) := by
+    unfold rabs at c1 ⊢
+    split at c1 <;> split <;> linarith
+  unfold locateCanon
+  rw [locate_out o.N o.x _ w (Or.inl h2)]
+  unfold edgeIdx
+  simp only [c1w, if_true]
+
+theorem zone_right_located {o : Obj} (t : Tbl o) {v w : Rat} {j : Nat} (h : locateCanon o.N o.x v = .ok j)
+    (hv : o.x (o.N - 1) < v) (h1 : w ≤ v) (h2 : o.x (o.N - 1) < w) : locateCanon o.N o.x w = .ok (o.N - 2) := by
+  have hN := t.hN
+  have hl : o.x (o.N - 2) < o.x (o.N - 1) := t.mono _ _ (by omega) (by omega)
+  have h1l : o.x 1 ≤ o.x (o.N - 1) := t.mono.le (by omega) (by omega)
+  have h01 : o.x 0 < o.x 1 := t.mono 0 1 (by omega) (by omega)
+  have nc1 : ∀ u, o.x (o.N - 1) < u → ¬ rabs (u - o.x 0) ≤ (1 : Rat) / 100 * (o.x 1 - o.x 0) := by
+    intro u hu c
+    unfold rabs at c
+    split at c <;> linarith
+  have c2 : rabs (v - o.x (o.N - 1)) ≤ (1 : Rat) / 100 * (o.x (o.N - 1) - o.x (o.N - 2)) := by
+    by_contra c2
+    unfold locateCanon at h
+    rw [locate_out o.N o.x _ v (Or.inr hv)] at h
+    unfold edgeIdx at h
+    simp only [nc1 v hv, c2, if_false] at h
+    cases h
+  have c2w : rabs (w - o.x (o.N - 1)) ≤ (1 : Rat) / 100 * (o.x (o.N - 1) - o.x (o.N - 2)) := by
+    unfold rabs at c2 ⊢
+    split at c2 <;> split <;> linarith
+  unfold locateCanon
+  rw [locate_out o.N o.x _ w (Or.inr h2)]
+  unfold edgeIdx
+  simp only [nc1 w h2, c2w, if_false, if_true]
+
+/-- a stationary value is the curve at an abscissa strictly inside the window it was asked for -/
+theorem mem_stationaryValues {o : Obj} {j : Nat} {lo hi s : Rat} (h : s ∈ o.stationaryValues j lo hi) :
+    ∃ w, lo < w ∧ w < hi ∧ s = o.cubicAt j w := by
+  unfold Obj.stationaryValues at h
+  obtain ⟨t, ht, e⟩ := List.mem_map.mp h
+  have hf := (List.mem_filter.mp ht).2
+  simp only [decide_eq_true_eq] at hf
+  refine ⟨o.x j + t, hf.1, hf.2, ?_⟩
+  rw [← e]
+  unfold Obj.cubicAt
+  rw [show o.x j + t - o.x j = t by ring]
 
 end Lp.C08
